@@ -243,11 +243,16 @@ def build_scheduler(desc, sort_wrapper=None):
             kw["allow_overcharging"] = True  # documented option (announced as not yet supported: it must not change safety)
         if sd["algo"] == "rr":
             kw["continuous_inc"] = sd.get("inc", 0.1)
+        if sd.get("terse"):
+            # documented defaults: estimate_max_rate=False, max_rate_estimator=None, uninterrupted_charging=False, continuous_inc=0.1
+            for k_, dv_ in (("estimate_max_rate", False), ("max_rate_estimator", None), ("uninterrupted_charging", False), ("continuous_inc", 0.1)):
+                if k_ in kw and kw[k_] is dv_ or (k_ == "continuous_inc" and kw.get(k_) == 0.1):
+                    kw.pop(k_, None)
         sf = sort_fn(sd["sort"])
         if sort_wrapper is not None:
             sf = sort_wrapper(sf, sd["sort"])
         algo = cls(sf, **kw)
-        if sd.get("mr") is not None:
+        if sd.get("mr") is not None and not (sd.get("terse") and sd["mr"] == 1):  # documented default: every period
             algo.max_recompute = sd["mr"]  # public attribute of every algorithm: periods between forced recomputes
         return algo
     raise ValueError(sd["kind"])
